@@ -27,8 +27,7 @@ ROOT = os.path.dirname(os.path.dirname(os.path.abspath(__file__)))
 REPO = os.environ.get("VERIF_REPO", "/repo")
 COQ = os.path.join(ROOT, "coq")
 OCAML = os.path.join(ROOT, "ocaml")
-HX = os.path.join(ROOT, "harness", "hx")
-CACHE = os.path.join(ROOT, ".cache")
+CACHE = os.environ.get("VERIF_CACHE", os.path.join(ROOT, ".cache"))
 TARGET = os.path.join(CACHE, "target")
 sys.path.insert(0, os.path.join(ROOT, "tools"))
 
@@ -73,22 +72,41 @@ class Lock:
 # Coq
 # --------------------------------------------------------------------------
 
+COQ_HEADER = ("-Q theories DivanV\n"
+              "-arg -w -arg -notation-overridden,-deprecated-hint-without-locality,-deprecated-instance-without-locality\n")
+
+
 def coq_files():
+    """All .v files under theories/ except Extract/ (those only write OCaml)."""
     files = []
-    with open(os.path.join(COQ, "_CoqProject")) as f:
-        for line in f:
-            line = line.strip()
-            if line.endswith(".v"):
-                files.append(line)
-    return files
+    for d, _, fs in os.walk(os.path.join(COQ, "theories")):
+        rel = os.path.relpath(d, COQ)
+        if rel.startswith(os.path.join("theories", "Extract")):
+            continue
+        for f in fs:
+            if f.endswith(".v") and not f.startswith("."):
+                files.append(os.path.join(rel, f))
+    return sorted(files)
+
+
+def write_coqproject():
+    text = COQ_HEADER + "\n".join(coq_files()) + "\n"
+    p = os.path.join(COQ, "_CoqProject")
+    old = open(p).read() if os.path.exists(p) else None
+    if old != text:
+        with open(p, "w") as f:
+            f.write(text)
+        return True
+    return False
 
 
 def coq_prepare():
     """Regenerate Consts.v and the Makefile (under the coq lock)."""
     rc, out, err, _ = sh([sys.executable, os.path.join(ROOT, "tools", "extract_consts.py")])
+    changed = write_coqproject()
     mk = os.path.join(COQ, "Makefile")
     proj = os.path.join(COQ, "_CoqProject")
-    if not os.path.exists(mk) or os.path.getmtime(mk) < os.path.getmtime(proj):
+    if changed or not os.path.exists(mk) or os.path.getmtime(mk) < os.path.getmtime(proj):
         sh(["coq_makefile", "-f", "_CoqProject", "-o", "Makefile"], cwd=COQ)
     return err.strip()
 
@@ -106,9 +124,9 @@ def failing_coq_file(log):
     return m[-1] if m else None
 
 
-def grep_forbidden():
+def grep_forbidden(files):
     hits = []
-    for rel in coq_files() + ["theories/Extract/Extract.v"]:
+    for rel in files:
         p = os.path.join(COQ, rel)
         if not os.path.exists(p):
             continue
@@ -191,25 +209,66 @@ def file_sig(paths):
     return h.hexdigest()
 
 
-def build_driver():
-    """Extract models, compile driver. Cached on the signature of the .vo files."""
-    ext_src = os.path.join(COQ, "theories", "Extract", "Extract.v")
-    deps = [os.path.join(COQ, f[:-2] + ".vo") for f in coq_files() if "/Model/" in f or "/Base/" in f or "/Generated/" in f]
-    deps += [ext_src, os.path.join(OCAML, "driver.ml")]
-    sig = file_sig(deps)
-    sigfile = os.path.join(CACHE, "driver.sig")
-    drv = os.path.join(OCAML, "driver")
-    if os.path.exists(drv) and os.path.exists(sigfile) and open(sigfile).read() == sig:
+def driver_dir(group):
+    return os.path.join(CACHE, "ocaml", group)
+
+
+def driver_bin(group):
+    return os.path.join(driver_dir(group), "driver")
+
+
+def extract_src(group):
+    return os.path.join(COQ, "theories", "Extract", group.capitalize() + ".v")
+
+
+def extract_deps(group):
+    """The .vo files theories/Extract/<Group>.v needs (via coqdep)."""
+    rc, out, err, _ = sh(["coqdep", "-Q", "theories", "DivanV", os.path.relpath(extract_src(group), COQ)], cwd=COQ, timeout=120)
+    deps = []
+    for line in out.splitlines():
+        if ":" not in line:
+            continue
+        lhs, rhs = line.split(":", 1)
+        if ".vo" not in lhs or ".vos" in lhs.split()[0]:
+            continue
+        for tok in rhs.split():
+            if tok.endswith(".vo") and tok.startswith("theories/"):
+                deps.append(tok)
+    return sorted(set(deps))
+
+
+def build_driver(group):
+    """Build the models the group's Extract file needs, extract them to OCaml
+    and compile ocaml/prelude.ml + ocaml/<group>.ml against them.  Cached on
+    the signature of the .vo files.  Call under the coq lock."""
+    ext_src = extract_src(group)
+    if not os.path.exists(ext_src):
+        return False, f"no extraction file {ext_src}"
+    deps = extract_deps(group)
+    if deps:
+        rc, out, err, _ = sh(["make", "-j16"] + deps, cwd=COQ, timeout=2400)
+        if rc != 0:
+            return False, "models do not compile: " + (out + err)[-2000:]
+    srcs = [os.path.join(OCAML, "prelude.ml"), os.path.join(OCAML, group + ".ml")]
+    sig = file_sig([os.path.join(COQ, d) for d in deps] + [ext_src] + srcs)
+    ddir = driver_dir(group)
+    os.makedirs(ddir, exist_ok=True)
+    sigfile = os.path.join(ddir, "driver.sig")
+    if os.path.exists(driver_bin(group)) and os.path.exists(sigfile) and open(sigfile).read() == sig:
         return True, "cached"
-    os.makedirs(os.path.join(CACHE, "extract"), exist_ok=True)
     rc, out, err, dt = sh(["coqc", "-Q", os.path.join(COQ, "theories"), "DivanV", "-o",
-                           os.path.join(CACHE, "extract", "Extract.vo"), ext_src], cwd=OCAML, timeout=600)
+                           os.path.join(ddir, group.capitalize() + ".vo"), ext_src], cwd=ddir, timeout=900)
     if rc != 0:
         return False, "extraction failed: " + (out + err)[-2000:]
+    with open(os.path.join(ddir, "driver.ml"), "w") as f:
+        for p in srcs:
+            f.write(f'# 1 "{p}"\n')
+            f.write(open(p, encoding="utf-8").read())
+            f.write("\n")
     rc, out, err, dt = sh(["ocamlfind", "ocamlopt", "-O3", "-w", "-a", "model.mli", "model.ml", "driver.ml", "-o", "driver"],
-                          cwd=OCAML, timeout=600)
+                          cwd=ddir, timeout=900)
     if rc != 0:
-        return False, "ocamlopt failed: " + (out + err)[-2000:]
+        return False, "ocamlopt failed: " + (out + err)[-3000:]
     with open(sigfile, "w") as f:
         f.write(sig)
     return True, "built"
@@ -277,36 +336,84 @@ class Stream:
     """
 
     def __init__(self, name, mode, cases, compare=None, nontrivial=None, sb=True, model_input=None,
-                 release=False, crate="hx", impl_timeout=600, impl_runner=None, describe=None, hist=None):
+                 release=False, crate=None, drv=None, impl_timeout=600, impl_runner=None, model_runner=None,
+                 sb_runner=None, describe=None, hist=None):
         self.name, self.mode, self.cases = name, mode, cases
         self.compare = compare or (lambda a, b: a == b)
         self.nontrivial = nontrivial or (lambda c, m: True)
         self.sb = sb
         self.model_input = model_input
         self.release = release
-        self.crate = crate
+        self.crate = crate      # harness crate under harness/ (default: the property module's CRATE)
+        self.drv = drv          # driver group (default: the property module's DRV)
+        self.model_runner = model_runner   # f(stream, driver_binary, model_inputs) -> lines
+        self.sb_runner = sb_runner         # f(stream, driver_binary, cases, impl_lines) -> lines
         self.impl_timeout = impl_timeout
         self.impl_runner = impl_runner
         self.describe = describe
         self.hist = hist
 
 
+def dep_closure(rel_v_files):
+    """Transitive closure (as theories/...v paths) of the given files' dependencies."""
+    files = coq_files() + [os.path.join("theories", "Extract", f) for f in os.listdir(os.path.join(COQ, "theories", "Extract"))
+                           if f.endswith(".v")]
+    rc, out, err, _ = sh(["coqdep", "-Q", "theories", "DivanV"] + files, cwd=COQ, timeout=300)
+    graph = {}
+    for line in out.splitlines():
+        if ":" not in line:
+            continue
+        lhs, rhs = line.split(":", 1)
+        first = lhs.split()[0]
+        if not first.endswith(".vo"):
+            continue
+        src = first[:-1]
+        graph[src] = [t[:-1] for t in rhs.split() if t.endswith(".vo") and t.startswith("theories/")]
+    seen, todo = set(), list(rel_v_files)
+    while todo:
+        f = todo.pop()
+        if f in seen:
+            continue
+        seen.add(f)
+        todo.extend(graph.get(f, []))
+    return sorted(seen)
+
+
 def main():
     if len(sys.argv) >= 2 and sys.argv[1] == "setup":
         return setup()
+    if len(sys.argv) >= 2 and sys.argv[1] == "coq":
+        # `vp.py coq [targets...]`: locked make (use this instead of calling make by hand)
+        with Lock("coq"):
+            coq_prepare()
+            rc, out, err, dt = sh(["make", "-j16"] + sys.argv[2:], cwd=COQ, timeout=3000)
+        print((out + err)[-6000:])
+        return rc
+    if len(sys.argv) >= 3 and sys.argv[1] == "driver":
+        with Lock("coq"):
+            coq_prepare()
+            ok, msg = build_driver(sys.argv[2])
+        print(msg)
+        return 0 if ok else 1
+    if len(sys.argv) >= 3 and sys.argv[1] == "harness":
+        with Lock("cargo-" + sys.argv[2]):
+            ok, log, binp = build_harness(sys.argv[2], "--release" in sys.argv)
+        print(binp if ok else log)
+        return 0 if ok else 1
     pid = sys.argv[1]
     tier = sys.argv[2] if len(sys.argv) > 2 else os.environ.get("VERIF_TIER", "quick")
     seed = int(os.environ.get("VERIF_SEED", "20260927"))
     t0 = time.time()
     prop = importlib.import_module("props." + pid.lower())
     rng = random.Random(seed * 1000003 + int(pid[1:]))
+    DRV = getattr(prop, "DRV", "time")
+    CRATE = getattr(prop, "CRATE", "hx")
 
     evidence = {
         "property_id": pid, "tier": tier, "seed": seed, "level": "proof",
         "coverage": {}, "assumptions": list(getattr(prop, "ASSUMPTIONS", [])), "wall_s": 0.0, "violations": 0,
     }
     cov = evidence["coverage"]
-    violations = []   # (replay dict, has_input)
     known_hits = []
     notes = []
 
@@ -320,15 +427,14 @@ def main():
         if not proof_ok:
             ff = failing_coq_file(log)
             proof_fail = {"file": ff[0] if ff else "?", "line": ff[1] if ff else "?", "log_tail": log[-1500:]}
-        # models for extraction must be built even when the proof is broken
-        model_targets = [f[:-2] + ".vo" for f in coq_files() if "/Model/" in f]
-        rc2, log2, _ = coq_make(" ".join(model_targets)) if False else sh(["make", "-j16"] + model_targets, cwd=COQ, timeout=1500)[:3]
-        models_ok = rc2 == 0
-        drv_ok, drv_msg = (False, "models do not compile")
-        if models_ok:
-            drv_ok, drv_msg = build_driver()
+        # models for extraction are built even when a proof is broken
+        groups = sorted({DRV} | set(getattr(prop, "EXTRA_DRVS", [])))
+        drv_state = {g: build_driver(g) for g in groups}
+        closure = dep_closure([f"theories/Properties/{pid}.v"] + [os.path.relpath(extract_src(g), COQ) for g in groups])
+    drv_ok = all(ok for ok, _ in drv_state.values())
+    drv_msg = "; ".join(f"{g}: {m}" for g, (ok, m) in drv_state.items() if not ok)
     thms, assumptions = ([], {})
-    forb = grep_forbidden()
+    forb = grep_forbidden(closure)
     if proof_ok:
         with Lock("coq"):
             thms, assumptions = audit(pid)
@@ -340,12 +446,16 @@ def main():
         pinned = json.load(open(pin_file))
     shash = statement_hash(pid)
     side = list(getattr(prop, "GENERATED_OBLIGATIONS", []))
+    allowed = ALLOWED_AXIOMS | set(getattr(prop, "ALLOWED_AXIOMS", []))
     obligations = len(thms)
     discharged = 0
     bad_axioms = {}
+    used_axioms = set()
     if proof_ok:
         for t in thms:
-            axs = [a for a in assumptions.get(t, ["<missing>"]) if a not in ALLOWED_AXIOMS]
+            axs_all = assumptions.get(t, ["<missing>"])
+            used_axioms.update(axs_all)
+            axs = [a for a in axs_all if a not in allowed]
             if axs:
                 bad_axioms[t] = axs
             else:
@@ -354,16 +464,19 @@ def main():
         "obligations": obligations, "discharged": discharged,
         "theorems": thms,
         "generated_side_conditions": side,
-        "checker_cmd": f"cd /verif/coq && make {target} && coqc Audit_{pid}.v (Print Assumptions of each theorem)",
+        "checker_cmd": f"cd /verif && python3 tools/vp.py coq {target}   # then coqc on .cache/audit/Audit_{pid}.v: Print Assumptions of each theorem",
         "axioms": {t: assumptions.get(t, []) for t in thms} if proof_ok else "proof does not check",
         "statement_hash": shash,
+        "coq_files_in_scope": closure,
         "trusted_base": [
             "Coq 8.16.1 kernel (vm_compute used for closed computations; no native_compute)",
-            "no axioms: every theorem is 'Closed under the global context'" if not bad_axioms else "axioms: " + json.dumps(bad_axioms),
-            "Coq Extraction with ExtrOcamlBasic only (no Extract Constant / Extract Inductive of our own); OCaml 4.13.1; ocaml/driver.ml",
+            ("no axioms: every theorem is 'Closed under the global context'" if not used_axioms else
+             "axioms used (standard-library declared, allow-listed): " + ", ".join(sorted(used_axioms))) if not bad_axioms
+            else "axioms outside the allow-list: " + json.dumps(bad_axioms),
+            "Coq Extraction with ExtrOcamlBasic only (no Extract Constant / Extract Inductive of our own); OCaml 4.13.1; ocaml/prelude.ml + ocaml/%s.ml" % DRV,
             "tools/extract_consts.py (regenerates Generated/Consts.v from /repo on every run)",
             "hand-written models tied to the code by the differential correspondence check reported below",
-            "hooks in /repo under --cfg divan_verif (thin wrappers, virtual clock, event log) and harness/hx",
+            "hooks in /repo under --cfg divan_verif (thin wrappers, virtual clock, event log) and harness/%s" % CRATE,
         ] + list(getattr(prop, "TRUSTED", [])),
     })
     if miss:
@@ -393,19 +506,18 @@ def main():
     if not drv_ok:
         corr_problem = "model driver unavailable: " + drv_msg
     else:
-        try:
-            streams = prop.streams(tier, rng)
-        except Exception as e:  # generator bug: be loud
-            raise
+        streams = prop.streams(tier, rng)
         built = {}
         for st in streams:
-            key = (st.crate, st.release)
+            crate = st.crate or CRATE
+            drv = driver_bin(st.drv or DRV)
+            key = (crate, st.release)
             if key not in built:
-                with Lock("cargo"):
-                    built[key] = build_harness(st.crate, st.release)
+                with Lock("cargo-" + crate):
+                    built[key] = build_harness(crate, st.release)
             ok, blog, hbin = built[key]
             if not ok:
-                corr_problem = f"harness {st.crate} does not build against /repo's working tree: " + blog[-800:]
+                corr_problem = f"harness {crate} does not build against /repo's working tree: " + blog[-1500:]
                 break
             ts = time.time()
             if st.impl_runner:
@@ -414,18 +526,23 @@ def main():
             else:
                 rc, impl, err, _ = run_lines(hbin, st.mode, st.cases, st.impl_timeout)
             if len(impl) != len(st.cases):
-                # harness died or hung: treat each missing line as a hang/crash outcome
-                impl = impl + ["crash rc=%s" % rc] * (len(st.cases) - len(impl))
+                # harness died or hung: each missing line is a crash outcome
+                impl = impl[:len(st.cases)] + ["crash rc=%s" % rc] * (len(st.cases) - len(impl))
             minputs = [st.model_input(c, i) if st.model_input else c for c, i in zip(st.cases, impl)]
-            rc, model, merr, _ = run_lines(os.path.join(OCAML, "driver"), st.mode, minputs, 1200)
-            if len(model) != len(st.cases):
-                raise SystemExit(f"driver failed on stream {st.name}: rc={rc} {merr[-500:]}")
+            if st.model_runner:
+                model = st.model_runner(st, drv, minputs)
+            else:
+                rc, model, merr, _ = run_lines(drv, st.mode, minputs, 1800)
+                if len(model) != len(st.cases):
+                    raise SystemExit(f"driver failed on stream {st.name}: rc={rc} {merr[-800:]} (got {len(model)} lines for {len(st.cases)} cases)")
             sbres = None
             if st.sb:
-                rc, sbres, serr, _ = run_lines(os.path.join(OCAML, "driver"), st.mode + ".sb",
-                                               [c + "\t" + i for c, i in zip(st.cases, impl)], 1200)
+                if st.sb_runner:
+                    sbres = st.sb_runner(st, drv, st.cases, impl)
+                else:
+                    rc, sbres, serr, _ = run_lines(drv, st.mode + ".sb", [c + "\t" + i for c, i in zip(st.cases, impl)], 1800)
                 if len(sbres) != len(st.cases):
-                    raise SystemExit(f"driver .sb failed on stream {st.name}: rc={rc} {serr[-500:]}")
+                    raise SystemExit(f"driver .sb failed on stream {st.name}: rc={rc} {serr[-800:]}")
             nd = 0
             for idx, (c, i, m) in enumerate(zip(st.cases, impl, model)):
                 total_eval += 1
@@ -435,10 +552,11 @@ def main():
                 sbok = True if sbres is None else sbres[idx].startswith("true")
                 if not agree:
                     nd += 1
-                    disagreements.append({"stream": st.name, "mode": st.mode, "case": c, "impl": i, "model": m})
+                    disagreements.append({"stream": st.name, "mode": st.mode, "case": c, "impl": i, "model": m,
+                                          "crate": crate, "drv": st.drv or DRV, "release": st.release})
                 if not sbok:
                     sb_failures.append({"stream": st.name, "mode": st.mode, "case": c, "impl": i, "model": m,
-                                        "spec_verdict": sbres[idx]})
+                                        "spec_verdict": sbres[idx], "crate": crate, "drv": st.drv or DRV, "release": st.release})
             if len(samples) < 12 and st.cases:
                 k = rng.randrange(len(st.cases))
                 samples.append({"stream": st.name, "case": st.cases[k][:400], "impl": impl[k][:400], "model": model[k][:400]})
@@ -446,6 +564,23 @@ def main():
                                  "wall_s": round(time.time() - ts, 2),
                                  **({"describe": st.describe} if st.describe else {}),
                                  **({"input_histogram": st.hist} if st.hist else {})})
+        # optional property-specific extra checks (e.g. exhaustive model exploration, end-to-end runs)
+        post = getattr(prop, "post", None)
+        if post and not corr_problem:
+            api = {"driver_bin": driver_bin, "build_harness": build_harness, "run_lines": run_lines, "sh": sh, "Lock": Lock,
+                   "TARGET": TARGET, "CACHE": CACHE, "ROOT": ROOT, "REPO": REPO, "ENV": ENV}
+            extra = post(tier, rng, api) or {}
+            total_eval += extra.get("evaluations", 0)
+            for k in extra.get("nontrivial_keys", []):
+                nontrivial.add(("post", k))
+            disagreements.extend(extra.get("disagreements", []))
+            sb_failures.extend(extra.get("spec_failures", []))
+            samples.extend(extra.get("samples", [])[:6])
+            stream_stats.extend(extra.get("streams", []))
+            if extra.get("coverage"):
+                cov.update(extra["coverage"])
+            if extra.get("problem") and not corr_problem:
+                corr_problem = extra["problem"]
 
     cov.update({
         "evaluations": total_eval,
@@ -465,7 +600,7 @@ def main():
     def is_known(item):
         for key, desc in kf:
             smode, _, pat = key.partition(":")
-            if smode == item["mode"] and re.fullmatch(pat, item["case"]):
+            if smode == item.get("mode") and item.get("case") is not None and re.fullmatch(pat, item["case"]):
                 return key, desc
         return None
 
@@ -518,14 +653,14 @@ def shrink(prop, item):
         return item
 
 
-def rerun_case(mode, case, crate="hx", release=False, model_input=None):
+def rerun_case(mode, case, crate="hx", release=False, model_input=None, drv="time"):
     """Re-run one case through implementation, model and spec. Returns (impl, model, sb)."""
     hbin = os.path.join(TARGET, "release" if release else "debug", crate)
     _, impl, _, _ = run_lines(hbin, mode, [case], 120)
     impl = impl[0] if impl else "crash"
     mi = model_input(case, impl) if model_input else case
-    _, model, _, _ = run_lines(os.path.join(OCAML, "driver"), mode, [mi], 120)
-    _, sb, _, _ = run_lines(os.path.join(OCAML, "driver"), mode + ".sb", [case + "\t" + impl], 120)
+    _, model, _, _ = run_lines(driver_bin(drv), mode, [mi], 120)
+    _, sb, _, _ = run_lines(driver_bin(drv), mode + ".sb", [case + "\t" + impl], 120)
     return impl, (model[0] if model else "?"), (sb[0] if sb else "?")
 
 
@@ -538,8 +673,8 @@ def write_replay(pid, item, what, proof_problem, corr_problem, extra=None):
         "input": item.get("case"), "implementation_output": item.get("impl"), "model_output": item.get("model"),
         "spec_verdict": item.get("spec_verdict"),
         "proof_problem": proof_problem, "correspondence_problem": corr_problem,
-        "replay_cmd": (f"printf '%s\\n' '{item.get('case')}' | /verif/.cache/target/debug/hx {item.get('mode')}   # implementation\n"
-                       f"printf '%s\\n' '{item.get('case')}' | /verif/ocaml/driver {item.get('mode')}   # model") if item.get("case") else None,
+        "replay_cmd": (f"printf '%s\\n' '{item.get('case')}' | {TARGET}/{'release' if item.get('release') else 'debug'}/{item.get('crate', 'hx')} {item.get('mode')}   # implementation\n"
+                       f"printf '%s\\n' '{item.get('case')}' | {driver_bin(item.get('drv', 'time'))} {item.get('mode')}   # model") if item.get("case") else None,
     }
     if extra:
         doc.update(extra)
@@ -548,30 +683,37 @@ def write_replay(pid, item, what, proof_problem, corr_problem, extra=None):
     return path
 
 
+def all_groups():
+    d = os.path.join(COQ, "theories", "Extract")
+    return sorted(f[:-2].lower() for f in os.listdir(d) if f.endswith(".v"))
+
+
 def setup():
     t0 = time.time()
+    rc_all = 0
     with Lock("coq"):
         coq_prepare()
-        rc, log, dt = coq_make(None, timeout=3000)
+        rc, log, dt = coq_make(None, timeout=6000)
         print(log[-3000:])
         if rc != 0:
-            print("setup: coq build failed")
-            return 1
-        ok, msg = build_driver()
-        print("driver:", msg)
-        if not ok:
-            return 1
-    with Lock("cargo"):
-        for crate in sorted(os.listdir(os.path.join(ROOT, "harness"))):
-            if not os.path.exists(os.path.join(ROOT, "harness", crate, "Cargo.toml")):
-                continue
-            for rel in (False, True):
+            print("setup: coq build failed (continuing: per-property checks will report)")
+            rc_all = 1
+        for g in all_groups():
+            ok, msg = build_driver(g)
+            print(f"driver {g}:", msg[-1500:])
+            if not ok:
+                rc_all = 1
+    for crate in sorted(os.listdir(os.path.join(ROOT, "harness"))):
+        if not os.path.exists(os.path.join(ROOT, "harness", crate, "src", "main.rs")):
+            continue
+        for rel in (False, True):
+            with Lock("cargo-" + crate):
                 ok, log, _ = build_harness(crate, rel, timeout=3000)
-                print(f"harness {crate} release={rel}:", "ok" if ok else log)
-                if not ok:
-                    return 1
-    print(f"setup done in {time.time() - t0:.0f}s")
-    return 0
+            print(f"harness {crate} release={rel}:", "ok" if ok else log)
+            if not ok:
+                rc_all = 1
+    print(f"setup done in {time.time() - t0:.0f}s rc={rc_all}")
+    return rc_all
 
 
 if __name__ == "__main__":
